@@ -409,7 +409,10 @@ impl Scala {
         indent: usize,
         comment: &str,
     ) -> std::io::Result<()> {
-        writeln!(w, "{}// {}", "\t".repeat(indent), comment)?;
+        // Doc text may span several lines: every line has to carry the comment marker.
+        for line in comment.split(|c| c == '\n' || c == '\r') {
+            writeln!(w, "{}// {}", "\t".repeat(indent), line)?;
+        }
         Ok(())
     }
 
